@@ -10,7 +10,7 @@
 (* serialised again).  Every action logs what the caller must observe       *)
 (* (`last`, appended to `hist` for export): the bytes, computed only by     *)
 (* PktWireLayers (layout tables + RFC 1071), and the header fields.         *)
-EXTENDS PktWireCorpus, Json
+EXTENDS PktWireEdits, Json
 
 CONSTANTS Descs      \* the cases explored (set of descriptors)
 
@@ -20,13 +20,14 @@ VARIABLES case,      \* the descriptor of the packet under test (chosen initiall
           fill,      \* the same with every derived field (lengths, checksums) filled in
           wire,      \* its serialisation
           dec,       \* the parse result
+          src,       \* who produced `wire` first: "lib" (Build ; Pack) or "wire" (Feed)
           last, hist
-vars == <<case, phase, pkt, fill, wire, dec, last, hist>>
+vars == <<case, phase, pkt, fill, wire, dec, src, last, hist>>
 \* `last`/`hist` are observations: properties about them are action properties
-view == <<case, phase, pkt, fill, wire, dec>>
+view == <<case, phase, pkt, fill, wire, dec, src>>
 
 NoObs == [a |-> "Init", args |-> [x |-> 0], exp |-> [x |-> 0]]
-Init == /\ case \in Descs /\ phase = "init" /\ pkt = <<>> /\ fill = <<>> /\ wire = <<>> /\ dec = <<>>
+Init == /\ case \in Descs /\ phase = "init" /\ pkt = <<>> /\ fill = <<>> /\ wire = <<>> /\ dec = <<>> /\ src = "none"
         /\ last = NoObs /\ hist = <<>>
 Log(a, args, exp) ==
   /\ last' = [a |-> a, args |-> args, exp |-> exp]
@@ -34,21 +35,21 @@ Log(a, args, exp) ==
 
 BuildS(s) ==
   /\ phase = "init" /\ phase' = "built"
-  /\ pkt' = s /\ UNCHANGED <<case, fill, wire, dec>>
+  /\ pkt' = s /\ UNCHANGED <<case, fill, wire, dec, src>>
   /\ Log("Build", [pkt |-> s, d |-> case], [ok |-> TRUE])
 Build == BuildS(Stack(case))
 
 Pack ==
   /\ phase = "built" /\ phase' = "packed"
   /\ \E q \in PadVariants(pkt) : LET a == Asm(q, 1) IN wire' = a.b /\ fill' = a.v
-  /\ UNCHANGED <<case, pkt, dec>>
+  /\ src' = "lib" /\ UNCHANGED <<case, pkt, dec>>
   /\ Log("Pack", [x |-> 0], Split(wire', PayLen(pkt)))
 
 FeedS(s) ==
   /\ phase = "init" /\ phase' = "packed"
   /\ pkt' = s
   /\ LET a == Asm(s, 1) IN wire' = a.b /\ fill' = a.v
-  /\ UNCHANGED <<case, dec>>
+  /\ src' = "wire" /\ UNCHANGED <<case, dec>>
   /\ Log("Feed", [pkt |-> s, d |-> case, wire |-> Split(wire', PayLen(s))], [ok |-> TRUE])
 Feed == FeedS(Stack(case))
 
@@ -56,7 +57,7 @@ Feed == FeedS(Stack(case))
 \* opaque payload kept as given
 Parse ==
   /\ phase = "packed" /\ phase' = "parsed"
-  /\ dec' = ParseStack(wire) /\ UNCHANGED <<case, pkt, fill, wire>>
+  /\ dec' = ParseStack(wire) /\ UNCHANGED <<case, pkt, fill, wire, src>>
   /\ Log("Parse", [x |-> 0], [view |-> Norm(fill)])
 
 \* The parsed packet is modified before it is sent on (what a switch applying
@@ -76,28 +77,54 @@ Edit ==
      IN /\ pkt' = [pkt EXCEPT ![Len(pkt)] = np]
         /\ dec' = d2 /\ wire' = a.b /\ fill' = a.v
         /\ Log("Edit", np, [ok |-> TRUE])
-  /\ UNCHANGED case
+  /\ UNCHANGED <<case, src>>
 
 Repack ==
   /\ phase \in {"parsed", "edited"} /\ phase' = "done"
-  /\ UNCHANGED <<case, pkt, fill, wire, dec>>
+  /\ UNCHANGED <<case, pkt, fill, wire, dec, src>>
   \* the same bytes - except that DHCP pad options, which carry no information,
   \* may be placed afresh (a packet the library itself serialised has them
   \* where the library puts them, so for those the bytes are the same)
   /\ \E q \in PadVariants(dec) : Log("Repack", [x |-> 0], Split(EncStack(q), PayLen(pkt)))
 
-Next == Build \/ Feed \/ Pack \/ Parse \/ Edit \/ Repack
+\* ---- edits after a first serialisation (caches are warm): PktWireEdits.tla.
+\* On the object the caller built (after Pack) and on the parse result (after
+\* Repack); the next serialisation must be the bytes of the edited stack.
+\* Explored for the pattern-valued cases with small payloads (and in traces).
+ChangeOK == case.dl = 0 /\ case.vc = "P" /\ case.n <= 64
+CanChangeBuilt  == phase = "packed" /\ src = "lib" /\ ChangeOK /\ Editable(pkt) /\ Len(EditsOf(pkt)) > 0
+CanChangeParsed == phase = "done" /\ src = "wire" /\ ChangeOK /\ Editable(dec) /\ Len(EditsOf(dec)) > 0
+ChangeBuiltE(e) ==
+  /\ phase' = "bchanged"
+  /\ LET q == ApplyEdit(pkt, e) a == Asm(q, 1) IN pkt' = q /\ wire' = a.b /\ fill' = a.v
+  /\ UNCHANGED <<case, dec, src>>
+  /\ Log("Change", e, [ok |-> TRUE])
+ChangeParsedE(e) ==
+  /\ phase' = "pchanged"
+  /\ LET q == ApplyEdit(dec, e) a == Asm(q, 1) IN dec' = q /\ wire' = a.b /\ fill' = a.v
+  /\ UNCHANGED <<case, pkt, src>>
+  /\ Log("Change", e, [ok |-> TRUE])
+ChangeBuilt  == CanChangeBuilt /\ \E j \in 1..Len(EditsOf(pkt)) : ChangeBuiltE(EditsOf(pkt)[j])
+ChangeParsed == CanChangeParsed /\ \E j \in 1..Len(EditsOf(dec)) : ChangeParsedE(EditsOf(dec)[j])
+PackAgain ==
+  /\ phase = "bchanged" /\ phase' = "bdone" /\ UNCHANGED <<case, pkt, fill, wire, dec, src>>
+  /\ \E q \in PadVariants(pkt) : Log("PackAgain", [x |-> 0], Split(EncStack(q), PayLen(pkt)))
+RepackAgain ==
+  /\ phase = "pchanged" /\ phase' = "pdone" /\ UNCHANGED <<case, pkt, fill, wire, dec, src>>
+  /\ \E q \in PadVariants(dec) : Log("RepackAgain", [x |-> 0], Split(EncStack(q), PayLen(pkt)))
+
+Next == Build \/ Feed \/ Pack \/ Parse \/ Edit \/ Repack \/ ChangeBuilt \/ ChangeParsed \/ PackAgain \/ RepackAgain
 Spec == Init /\ [][Next]_vars
 
 ---------------------------------------------------------------------------
 (* The property, over the real variables                                    *)
 
-TypeOK == /\ phase \in {"init", "built", "packed", "parsed", "edited", "done"}
+TypeOK == /\ phase \in {"init", "built", "packed", "parsed", "edited", "done", "bchanged", "bdone", "pchanged", "pdone"}
           /\ phase = "built" => StackOK(pkt)
           /\ phase = "packed" => IsBytes(wire) /\ StackOK(fill)
 
 \* emitted length fields and checksums are right (checked from the bytes)
-LengthsAndChecksumsOK == phase \in {"packed", "edited"} => WireOK(fill, wire)
+LengthsAndChecksumsOK == phase \in {"packed", "edited", "bchanged", "pchanged"} => WireOK(fill, wire)
 
 \* the two definitions of the Internet checksum agree on every frame and on
 \* the frame without its last byte (odd and even lengths)
@@ -119,10 +146,11 @@ ReserialiseSame ==
 ObservationsOK ==
   [][/\ last'.a = "Pack" => /\ last'.exp.hdr = Take(wire', Len(wire') - PayLen(pkt'))
                              /\ last'.exp.pay = PayLen(pkt')
-     /\ last'.a = "Repack" => \E q \in PadVariants(dec') : last'.exp = Split(EncStack(q), PayLen(pkt'))
+     /\ last'.a \in {"Repack", "RepackAgain"} => \E q \in PadVariants(dec') : last'.exp = Split(EncStack(q), PayLen(pkt'))
+     /\ last'.a = "PackAgain" => \E q \in PadVariants(pkt') : last'.exp = Split(EncStack(q), PayLen(pkt'))
      /\ last'.a = "Parse" => Norm(Expand(last'.exp.view)) = Norm(dec')]_vars
 
 \* ---- export for the replay harness
-Done   == phase = "done"
+Done   == phase \in {"bdone", "pdone"} \/ (phase = "done" /\ ~CanChangeParsed)
 Export == Done => PrintT(<<"H", ToJson(hist)>>)
 =============================================================================
